@@ -35,10 +35,12 @@ inductive Expect where
 structure ReqD where
   method : Nat            -- 0 GET, 1 HEAD, 2 POST
   proto11 : Bool
-  conn : Nat              -- 0 absent, 1 close, 2 keep-alive
+  conn : Nat              -- 0 absent, 1 close, 2 keep-alive, 3 "Close", 4 "Keep-Alive", 5 "keep-alive, close",
+                          -- 6 two lines "x-y" / "close" (bfe looks at the first line only)
   expect : Expect
   sent : Bool             -- the client puts the body on the wire right behind the header (pipelined)
   body : BodyD
+  graceful : Bool := false -- the server is in graceful-shutdown state when this request is answered
   waits : Bool := false   -- waiting client: sends nothing past the header until the server answers; the body
                           -- follows only after a `100 Continue` (then `sent = false`)
   deriving Repr, DecidableEq
@@ -74,7 +76,10 @@ def methodStr (m : Nat) : String := if m == 1 then "HEAD" else if m == 2 then "P
 def headStr (i : Nat) (r : ReqD) : String :=
   methodStr r.method ++ " /" ++ toString i ++ (if r.proto11 then " HTTP/1.1\r\n" else " HTTP/1.0\r\n") ++
   "Host: h\r\n" ++
-  (if r.conn == 1 then "Connection: close\r\n" else if r.conn == 2 then "Connection: keep-alive\r\n" else "") ++
+  (if r.conn == 1 then "Connection: close\r\n" else if r.conn == 2 then "Connection: keep-alive\r\n"
+   else if r.conn == 3 then "Connection: Close\r\n" else if r.conn == 4 then "Connection: Keep-Alive\r\n"
+   else if r.conn == 5 then "Connection: keep-alive, close\r\n"
+   else if r.conn == 6 then "Connection: x-y\r\nConnection: close\r\n" else "") ++
   (match r.expect with | .no => "" | .cont => "Expect: 100-continue\r\n" | .unknown => "Expect: x-unknown\r\n") ++
   (match r.body with
    | .none => ""
@@ -165,7 +170,10 @@ structure Out where
   bytes : Bytes := []                 -- everything written to the client
   deriving Repr
 
-def connStr (c : Nat) : String := if c == 1 then "close" else if c == 2 then "keep-alive" else ""
+/-- req.Header.GetDirect("Connection"): the value of the FIRST Connection line -/
+def connStr (c : Nat) : String :=
+  if c == 1 then "close" else if c == 2 then "keep-alive" else if c == 3 then "Close"
+  else if c == 4 then "Keep-Alive" else if c == 5 then "keep-alive, close" else if c == 6 then "x-y" else ""
 
 def reply400 : Bytes := strBytes "HTTP/1.1 400 Bad Request\r\n\r\n"
 def reply413 : Bytes := strBytes "HTTP/1.1 413 Request Entity Too Large\r\n\r\n"
@@ -197,12 +205,13 @@ def serveOne (ka : Bool) (r : ReqD) (sc : Script) : Bytes × Bool :=
   let pre := if wroteContinue then continue100 else []
   let rq : BfeVerif.C27.Req :=
     { isHead := r.method == 1, proto11 := r.proto11, conn := connStr r.conn,
-      clNonZero := hasBody, bodyLeft := left, expecter := expecter, wroteContinue := wroteContinue }
+      clNonZero := hasBody, bodyLeft := left, expecter := expecter, wroteContinue := wroteContinue,
+      graceful := r.graceful }
   match sc.act with
   | .closeDirect => (pre, false)
   | .finish => (pre ++ render (respond rq ka []), false)
   | .respond st fc fk fl len split =>
-    let s := respond rq ka (respondScript st fc fk fl len split)
+    let s := respond { rq with touchesHeader := true } ka (respondScript st fc fk fl len split)
     (pre ++ render s, !s.close && s.writeRes.all (· == 0))
 
 /-- conn.serve on the remaining stream; `pos`/`i` = offset and number of the next message -/
@@ -216,11 +225,13 @@ def serveFrom (ka : Bool) : Nat → Nat → List Seg → List Script → Out →
     if r.expect == .cont && !clNonZero r.body then
       -- Expect: 100-continue with a zero Content-Length: 400, Connection: close
       let rq : BfeVerif.C27.Req := { isHead := r.method == 1, proto11 := r.proto11, conn := connStr r.conn,
-                                      clNonZero := false, bodyLeft := 0, expecter := expecter }
+                                      clNonZero := false, bodyLeft := 0, expecter := expecter,
+                                      graceful := r.graceful }
       { o with bytes := o.bytes ++ render (respond rq ka [Act.set "Connection" "close", Act.writeHeader 400]) }
     else if r.expect == .unknown then
       let rq : BfeVerif.C27.Req := { isHead := r.method == 1, proto11 := r.proto11, conn := connStr r.conn,
-                                      clNonZero := clNonZero r.body, bodyLeft := bodyDecoded r.body }
+                                      clNonZero := clNonZero r.body, bodyLeft := bodyDecoded r.body,
+                                      graceful := r.graceful }
       { o with bytes := o.bytes ++ render (respond rq ka [Act.set "Connection" "close", Act.writeHeader 417]) }
     else
       let sc := scs.headD defaultScript
